@@ -654,8 +654,11 @@ func (s Emitter) WriteExpression(output io.Writer, expression cypher.Expression)
 		}
 
 	case *cypher.FunctionInvocation:
-		if _, err := io.WriteString(output, strings.Join(typedExpression.Namespace, ".")); err != nil {
-			return err
+		// Each namespace component is followed by a separator: apoc.text.join(...)
+		for _, namespaceComponent := range typedExpression.Namespace {
+			if _, err := io.WriteString(output, namespaceComponent+"."); err != nil {
+				return err
+			}
 		}
 
 		if _, err := io.WriteString(output, typedExpression.Name); err != nil {
